@@ -84,7 +84,7 @@ func featMain(args []string) {
 					}
 				case "insert":
 					for _, sv := range asList(c["seqs"]) {
-						ev := J{"ev": "insert", "case": id, "ins": sv, "panic": "", "out": []interface{}{}}
+						ev := J{"ev": "insert", "case": id, "ins": sv, "panic": "", "out": []interface{}{}, "stale": []interface{}{}}
 						func() {
 							defer func() {
 								if e := recover(); e != nil {
@@ -92,9 +92,44 @@ func featMain(args []string) {
 								}
 							}()
 							var ff gts.FeatureSlice
-							for _, f := range makeFeatures(asList(sv)) {
+							// every intermediate table is kept and read again at the end: Insert returns a new
+							// table, the one it was called on must still read as it did (also after the last
+							// feature has been inserted into each of them once more)
+							feats := makeFeatures(asList(sv))
+							render := func(t gts.FeatureSlice) string {
+								s := ""
+								for _, f := range t {
+									s += f.Key + " " + f.Loc.String() + "|"
+								}
+								return s
+							}
+							var kept []gts.FeatureSlice
+							var keptText []string
+							for _, f := range feats {
+								kept = append(kept, ff)
+								keptText = append(keptText, render(ff))
 								ff = ff.Insert(f)
 							}
+							final := render(ff)
+							if len(feats) > 0 {
+								for _, t := range kept {
+									_ = t.Insert(feats[len(feats)-1])
+								}
+								// the final table too (it is the one most likely to have spare capacity), with the
+								// first and with the last feature
+								_ = ff.Insert(feats[0])
+								_ = ff.Insert(feats[len(feats)-1])
+							}
+							stale := []interface{}{}
+							for k, t := range kept {
+								if render(t) != keptText[k] {
+									stale = append(stale, k)
+								}
+							}
+							if render(ff) != final {
+								stale = append(stale, len(kept))
+							}
+							ev["stale"] = stale
 							res := make([]interface{}, len(ff))
 							for i, f := range ff {
 								res[i] = J{"key": f.Key, "loc": locToJSON(f.Loc), "label": labelOf(f)}
